@@ -60,6 +60,7 @@ def runD (j : Json) : Except String Json := do
       let ki ← jNat a[2]!
       match keys[ki]? with
       | some k =>
+        let nres : Nat := if mm.resolvesAt cfg (c, k) then 1 else 0
         let (mm', r) := mm.lookup cfg (c, k)
         let fresh := (({ meths := mm.meths, empty := mm.empty } : MMap).lookup cfg (c, k)).2
         mm := mm'
@@ -69,7 +70,7 @@ def runD (j : Json) : Except String Json := do
         res := Json.mkObj [("res", resToJson r), ("fresh", resToJson fresh), ("spec", specToJson spec),
           ("static", toJson (staticTable mm.meths)), ("cc", toJson (candComparable cfg.H mm.meths k)),
           ("tie", toJson (sigTieOK cfg.H mm.meths k)),
-          ("napp", toJson (applicable cfg.H mm.meths k).length)]
+          ("napp", toJson (applicable cfg.H mm.meths k).length), ("nres", toJson nres)]
       | none => throw "bad key index"
     else throw s!"bad op {kind}"
     let ck := dedupS (mm.st.cacheKeys.map (ckStr keys))
